@@ -19,24 +19,24 @@ package simple
 //@ specfunc synced(ip *Inode) = ssize(ip.Inum) == ip.Size && sblk(ip.Inum) == ip.Data
 //@ specfunc othersSame(inum uint64) = (forall j uint64 :: j < 32 && j != inum ==> ssize(j) == old(ssize(j)) && sblk(j) == old(sblk(j))) && (forall j uint64, i uint64 :: j < 32 && j != inum && i < 4096 ==> sbyte(j, i) == old(sbyte(j, i)))
 
-//@ spec validInum
+//@ spec validInum(inum)
 //@   props C17 C11
 //@   ensures [V1-range] result <==> fileno(inum) @C17
 
-//@ spec fh2ino
+//@ spec fh2ino(fh3)
 //@   props C17 C11
 //@   allocates marshal.Dec, cell:uint64
 //@   ensures [V2-short] len(fh3.Data) < 8 ==> result == 0 @C17 @C11
 //@   ensures [V2-decode] len(fh3.Data) >= 8 ==> result == le64(fh3.Data, 0) @C17
 
-//@ spec (*Inode).Encode
+//@ spec (*Inode).Encode(ip)
 //@   props C17 C11
 //@   requires ip != nil
 //@   allocates []uint8, marshal.Enc, cell:uint64
 //@   ensures [S2-len] len(result) == 128 && fresh(result) @C17 @C11
 //@   ensures [S2-fields] le64(result, 0) == ip.Size && le64(result, 8) == ip.Data @C17
 
-//@ spec Decode
+//@ spec Decode(buf, inum)
 //@   props C17 C11
 //@   requires buf != nil && len(buf.Data) >= 16
 //@   allocates simple.Inode, marshal.Dec, cell:uint64
@@ -45,7 +45,7 @@ package simple
 // The inode table invariant (every file's block pointer is 514+i, sizes are
 // at most one block) is established by inodeInit, assumed where an inode is
 // loaded and checked where one is stored.
-//@ spec ReadInode
+//@ spec ReadInode(op, inum)
 //@   props C17 C11 C14
 //@   requires op != nil && diskOK() && inum < 32
 //@   requires [L1-locked] held[inum] @C17 @C14
@@ -54,7 +54,7 @@ package simple
 //@   assumes [SI-table] fileno(inum) ==> result.Data == 514 + inum
 //@   assumes [SI-size] result.Size <= 4096
 
-//@ spec (*Inode).WriteInode
+//@ spec (*Inode).WriteInode(ip, op)
 //@   props C17 C11 C14
 //@   requires op != nil && diskOK() && ip != nil
 //@   requires [SI-store] inoOK(ip) @C17
@@ -66,7 +66,7 @@ package simple
 
 // READ: the bytes [offset, offset+count) cut at the size; eof exactly when
 // the read reaches the end of the file.
-//@ spec (*Inode).Read
+//@ spec (*Inode).Read(ip, op, offset, bytesToRead)
 //@   props C17 C11 C14
 //@   requires op != nil && diskOK() && inoOK(ip)
 //@   requires [L1-locked] held[ip.Inum] @C17 @C14
@@ -81,7 +81,7 @@ package simple
 // WRITE: refused (no effect) when the count disagrees with the data, the
 // range overflows or leaves the block, or a hole would be created; otherwise
 // exactly the given bytes change and the size grows to cover them.
-//@ spec (*Inode).Write
+//@ spec (*Inode).Write(ip, op, offset, count, dataBuf)
 //@   props C17 C11 C14
 //@   requires op != nil && diskOK() && inoOK(ip) && synced(ip)
 //@   requires [L1-locked] held[ip.Inum] @C17 @C14
@@ -98,7 +98,7 @@ package simple
 //@   loop 0 invariant b <= count && len(buffer.Data) == 4096 && (forall k uint64 :: offset <= k && k < offset + b ==> buffer.Data[k] == dataBuf[k - offset]) && (forall k uint64 :: k < 4096 && !(offset <= k && k < offset + b) ==> buffer.Data[k] == old(sbyte(ip.Inum, k)))
 //@   loop 0 decreases count - b
 
-//@ spec (*Inode).MkFattr
+//@ spec (*Inode).MkFattr(ip)
 //@   props C17
 //@   requires ip != nil
 //@   ensures [G1-attr] uint64(result.Size) == ip.Size && uint64(result.Fileid) == ip.Inum && result.Ftype == 1 @C17
@@ -112,7 +112,7 @@ package simple
 //@ specfunc noCommit() = jcommits == old(jcommits) && jblk == old(jblk) && lastst == old(lastst)
 //@ specfunc viewSame() = jblk == old(jblk)
 
-//@ spec (*Nfs).NFSPROC3_GETATTR
+//@ spec (*Nfs).NFSPROC3_GETATTR(nfs, args)
 //@   props C17 C11 C14
 //@   requires simpleInv(nfs)
 //@   allocates jrnl.Op, simple.Inode, buf.Buf, marshal.Dec, cell:uint64, nfstypes.GETATTR3res
@@ -124,7 +124,7 @@ package simple
 //@   ensures [A2-readonly] viewSame() @C17
 //@   ensures [L2-quiet] noLocks() @C17 @C14
 
-//@ spec (*Nfs).NFSPROC3_READ
+//@ spec (*Nfs).NFSPROC3_READ(nfs, args)
 //@   props C17 C11 C14
 //@   requires simpleInv(nfs)
 //@   allocates jrnl.Op, simple.Inode, buf.Buf, marshal.Dec, cell:uint64, nfstypes.READ3res, []uint8
@@ -140,7 +140,7 @@ package simple
 //@   ensures [L2-quiet] noLocks() @C17 @C14
 
 //@ specfunc wrOK(args nfstypes.WRITE3args, size uint64) = uint64(args.Count) == len(args.Data) && uint64(args.Offset) + uint64(args.Count) >= uint64(args.Offset) && uint64(args.Offset) + uint64(args.Count) <= 4096 && uint64(args.Offset) <= size
-//@ spec (*Nfs).NFSPROC3_WRITE
+//@ spec (*Nfs).NFSPROC3_WRITE(nfs, args)
 //@   props C17 C11 C14
 //@   requires simpleInv(nfs)
 //@   allocates jrnl.Op, simple.Inode, buf.Buf, marshal.Dec, marshal.Enc, cell:uint64, nfstypes.WRITE3res, []uint8
@@ -155,7 +155,7 @@ package simple
 //@   ensures [W2-others] othersSame(sino(args.File)) @C17
 //@   ensures [L2-quiet] noLocks() @C17 @C14
 
-//@ spec (*Nfs).NFSPROC3_SETATTR
+//@ spec (*Nfs).NFSPROC3_SETATTR(nfs, args)
 //@   props C17 C11 C14
 //@   requires simpleInv(nfs)
 //@   allocates jrnl.Op, simple.Inode, buf.Buf, marshal.Dec, marshal.Enc, cell:uint64, nfstypes.SETATTR3res, []uint8
@@ -170,7 +170,7 @@ package simple
 //@   ensures [T2-others] othersSame(sino(args.Object)) @C17
 //@   ensures [L2-quiet] noLocks() @C17 @C14
 
-//@ spec (*Nfs).NFSPROC3_COMMIT
+//@ spec (*Nfs).NFSPROC3_COMMIT(nfs, args)
 //@   props C17 C11 C14
 //@   requires simpleInv(nfs)
 //@   allocates jrnl.Op, nfstypes.COMMIT3res
@@ -180,18 +180,18 @@ package simple
 //@   ensures [A2-readonly] viewSame() @C17
 //@   ensures [L2-quiet] noLocks() @C17 @C14
 
-//@ spec (*Nfs).NFSPROC3_FSINFO
+//@ spec (*Nfs).NFSPROC3_FSINFO(nfs, args)
 //@   props C17
 //@   ensures [Q-limits] result.Status == 0 && result.Resok.Wtmax == 4096 && uint64(result.Resok.Maxfilesize) == 4096 @C17
 
-//@ spec (*Nfs).NFSPROC3_LOOKUP
+//@ spec (*Nfs).NFSPROC3_LOOKUP(nfs, args)
 //@   props C17 C11
 //@   allocates []uint8, marshal.Enc, cell:uint64, nfstypes.LOOKUP3res
 //@   ensures [K1-names] (args.What.Name == "a" || args.What.Name == "b") <==> result.Status == 0 @C17
 //@   ensures [K1-handle] result.Status == 0 ==> fileno(sino(result.Resok.Object)) && (args.What.Name == "a" ==> sino(result.Resok.Object) == 2) && (args.What.Name == "b" ==> sino(result.Resok.Object) == 3) @C17
 
 // mkfs: every inode gets its fixed data block (establishes SI-table).
-//@ spec inodeInit
+//@ spec inodeInit(op)
 //@   props C17 C11
 //@   requires op != nil && diskOK() && (forall i uint64 :: i < 32 ==> held[i])
 //@   allocates simple.Inode, buf.Buf, marshal.Dec, marshal.Enc, cell:uint64, []uint8
